@@ -5,6 +5,7 @@
 #include <plibsys.h>
 #include <stdint.h>
 #include "vtrace.h"
+#include "galloc.h"
 
 #define MAXID 64
 static uintptr_t kmap[MAXID], vmap[MAXID]; static int nk, nv; static int vset[MAXID];
@@ -38,6 +39,7 @@ int main (int argc, char **argv) {
 	in = fopen (argv[1], "r"); if (!in) { perror (argv[1]); return 2; }
 	vt_open (argv[2]);
 	p_libsys_init (); p_libsys_shutdown (); p_libsys_init ();      /* the library is used after a shutdown / re-initialisation cycle */
+	if (!ga_install ()) return 2;      /* fresh memory is garbage, released memory is overwritten (galloc.h) */
 	while (fgets (line, sizeof line, in)) {
 		a = b = 0; hex[0] = 0;
 		if (sscanf (line, "%31s", op) < 1) continue;
@@ -89,6 +91,7 @@ int main (int argc, char **argv) {
 	}
 	if (ht) p_hash_table_free (ht);
 	if (lst) p_list_free (lst);
+	p_mem_restore_vtable ();
 	p_libsys_shutdown ();
 	vt_close ();
 	return 0;
